@@ -121,6 +121,26 @@ func judgeSuffixKeys(sev []suffixEv) (fs []finding, sufOf map[string]map[int32]b
 	return fs, sufOf, firstOf
 }
 
+// judgeSuffixOnly applies the suffix-key clauses alone (used when the cluster never came to serve).
+func (c *cluster) judgeSuffixOnly() {
+	if !c.settleWatch() {
+		return
+	}
+	c.wmu.Lock()
+	sev := append([]suffixEv(nil), c.suffix...)
+	c.wmu.Unlock()
+	fs, _, _ := judgeSuffixKeys(sev)
+	done := map[string]bool{}
+	for _, f := range fs {
+		key := f.key + ":" + c.t.class()
+		if done[key] {
+			continue
+		}
+		done[key] = true
+		c.r.Violation(key, f.what, map[string]interface{}{"topology": c.t, "suffix_key_history": sev, "cluster_events": c.notesCopy()})
+	}
+}
+
 func (c *cluster) judge() {
 	r := c.r
 	c.mu.RLock()
@@ -450,7 +470,7 @@ func (c *cluster) judge() {
 	}
 	done := map[string]bool{}
 	for _, f := range fs {
-		key := f.key + ":" + c.t.Name
+		key := f.key + ":" + c.t.class()
 		if done[key] {
 			continue
 		}
